@@ -18,7 +18,7 @@ theorem markKey_of {k : List Char} (hk : k ≠ []) : markKey ('_' :: k) = some k
 theorem ofList_toList_key {k : List Char} : (String.ofList k).toList = k := String.toList_ofList
 
 /-- no anchor carries object-lib data -/
-def NoLib (i : Input) : Prop := ∀ g ∈ i.glyphs, ∀ a ∈ g.anchors, a.lib = none ∧ a.idNoLib = false
+def NoLib (i : Input) : Prop := ∀ g ∈ i.glyphs, ∀ a ∈ g.anchors, a.lib = none
 
 /-- … then no NamedAnchor is contextual -/
 theorem noctx {i : Input} {al : AList} (w : ALwf i al) (nl : NoLib i) {e : String × List NA} (he : e ∈ al)
@@ -29,7 +29,7 @@ theorem noctx {i : Input} {al : AList} (w : ALwf i al) (nl : NoLib i) {e : Strin
     obtain ⟨sg, hsg, _, hsrc⟩ := w.src e he
     obtain ⟨s, hs, _, _, _, hl⟩ := hsrc a ha
     have := hl c hc
-    rw [(nl sg (findGlyph_some hsg).1 s hs).1] at this; simp at this
+    rw [nl sg (findGlyph_some hsg).1 s hs] at this; simp at this
 
 section
 variable {i : Input} {al : AList} (w : ALwf i al) (cv : ALcov i al) (nl : NoLib i)
@@ -40,7 +40,7 @@ omit w in
 theorem na_of_src_mark {sg : SrcGlyph} (hsg : sg ∈ i.glyphs) (hinc : included i sg.name = true) {s : SrcAnchor}
     (hs : s ∈ sg.anchors) {k : List Char} (hn : s.name.toList = '_' :: k) (hk : plainKey k = true) :
     ∃ a, AnchorIn al sg.name a ∧ a.isMark = true ∧ a.key = String.ofList k := by
-  obtain ⟨a0, h0, _, h2, h3, _⟩ := src_mark (q := i.quant) (nl sg hsg s hs).2 hn hk
+  obtain ⟨a0, h0, _, h2, h3, _⟩ := src_mark (q := i.quant) hn hk
   obtain ⟨as, has, a, ha, _, e2, e3, _⟩ := cv.cov sg hsg hinc s hs a0 h0
   exact ⟨a, ⟨as, has, ha⟩, by rw [e2, h2], by rw [e3, h3]⟩
 
@@ -53,12 +53,12 @@ theorem na_of_src_base {sg : SrcGlyph} (hsg : sg ∈ i.glyphs) (hinc : included 
   cases c with
   | none =>
     have hn : s.name.toList = k := by simpa [baseNameMatches] using hm
-    obtain ⟨a0, h0, _, h2, h3, h4⟩ := src_base (q := i.quant) (nl sg hsg s hs).2 hn hk
+    obtain ⟨a0, h0, _, h2, h3, h4⟩ := src_base (q := i.quant) hn hk
     obtain ⟨as, has, a, ha, _, e2, e3, e4⟩ := cv.cov sg hsg hinc s hs a0 h0
     exact ⟨a, ⟨as, has, ha⟩, by rw [e2, h2], by rw [e3, h3], by rw [e4, h4]; rfl⟩
   | some j =>
     have hl : isLigName k (j + 1) s.name.toList = true := by simpa [baseNameMatches] using hm
-    obtain ⟨a0, h0, _, h2, h3, h4⟩ := src_lig (q := i.quant) (nl sg hsg s hs).2 hl ((plainKey_iff k).mp hk).1 (by omega)
+    obtain ⟨a0, h0, _, h2, h3, h4⟩ := src_lig (q := i.quant) hl ((plainKey_iff k).mp hk).1 (by omega)
     obtain ⟨as, has, a, ha, _, e2, e3, e4⟩ := cv.cov sg hsg hinc s hs a0 h0
     exact ⟨a, ⟨as, has, ha⟩, by rw [e2, h2], by rw [e3, h3], by rw [e4, h4]; rfl⟩
 
@@ -81,7 +81,7 @@ theorem mg_of_isMarkGlyph {b : String} {gb : SrcGlyph} (hfb : findGlyph i b = so
     unfold hasBaseSide at hbs
     rw [any_eq_true] at hbs
     obtain ⟨s', hs', hcase⟩ := hbs
-    have hpn : pairName s' = s'.name.toList := by simp [pairName, (nl hh hhg s' hs').1]
+    have hpn : pairName s' = s'.name.toList := by simp [pairName, nl hh hhg s' hs']
     rw [hpn] at hcase
     have : ∃ ab, AnchorIn al hh.name ab ∧ ab.isMark = false ∧ ab.key = String.ofList k := by
       rw [Bool.or_eq_true] at hcase
@@ -143,7 +143,7 @@ theorem isMarkGlyph_of_mg {b : String} {gb : SrcGlyph} (hfb : findGlyph i b = so
   unfold hasBaseSide
   rw [any_eq_true]
   refine ⟨s', hs', ?_⟩
-  have hpn : pairName s' = s'.name.toList := by simp [pairName, (nl sg' hsg'm s' hs').1]
+  have hpn : pairName s' = s'.name.toList := by simp [pairName, nl sg' hsg'm s' hs']
   rw [hpn, hs'n, ← hkey]
   cases hnum : a'.number with
   | none =>
